@@ -150,6 +150,12 @@ def shard_main(argv):
     prop, sp, rp = argv
     import faulthandler
     faulthandler.enable()
+    try:  # a runaway workload must end as a quick MemoryError (=> inconclusive), not as minutes of swapping and an OOM kill
+        import resource
+        lim = int(os.environ.get("VF_SHARD_MEM_GB", "12")) << 30
+        resource.setrlimit(resource.RLIMIT_AS, (lim, lim))
+    except Exception:
+        pass
     from vf import env
     env.setup()
     mod = importlib.import_module("vf.props.%s" % prop.lower())
